@@ -89,6 +89,18 @@ def base_pool():
         "c_rand_herm": lambda: qutip.rand_herm(2, seed=1), "c_rand_unitary": lambda: qutip.rand_unitary(2, seed=1),
         "c_rand_dm": lambda: qutip.rand_dm(2, seed=1), "c_globalphase": lambda: qutip.gates.globalphase(0.5),
     }
+    # diagonal storage as SciPy hands it over: the diagonals in any order (+k before -k, main diagonal last, ...)
+    import scipy.sparse as sp
+
+    def dia(offsets, a00, a01, a10, a11):
+        rows = {0: [a00, a11], 1: [0, a01], -1: [a10, 0]}
+        return qutip.Qobj(sp.dia_matrix((np.array([rows[o] for o in offsets], dtype=complex), offsets), shape=(2, 2)))
+    ctors.update({
+        "d_herm_0pm": lambda: dia([0, 1, -1], 1, 2 - 1j, 2 + 1j, -1), "d_herm_pm": lambda: dia([1, -1], 0, 1j, -1j, 0),
+        "d_herm_p0m": lambda: dia([1, 0, -1], 2, 1, 1, 3), "d_nonherm_pm": lambda: dia([1, -1], 0, 1, 2, 0),
+        "d_nonherm_0pm": lambda: dia([0, 1, -1], 1j, 1, 1, 1), "d_unit_pm": lambda: dia([1, -1], 0, 1j, 1j, 0),
+        "d_herm_mp": lambda: dia([-1, 1], 0, 0.5j, -0.5j, 0),
+    })
     for k, f in ctors.items():
         try:
             out[k] = f()
@@ -117,6 +129,10 @@ UNARY = {
     "to_choi": None, "to_chi": None, "to_super_rt": None,
     "evo_complex_coeff": None, "transform_kets": None, "transform_matrix": None, "solver_reuse_me": None, "solver_reuse_se": None,
     "trunc_neg": lambda q: q.trunc_neg() if q.isherm else q,
+    "sadd_real": lambda q: q + 0.5, "rssub_real": lambda q: 0.5 - q, "sadd_imag_pos": lambda q: q + 0.15j,
+    "sadd_imag_neg": lambda q: q + (-0.15j), "rsadd_imag_neg": lambda q: (-0.15j) + q, "ssub_imag_pos": lambda q: q - 0.15j,
+    "rssub_imag_neg": lambda q: (-0.15j) - q, "rssub_imag_pos": lambda q: 0.15j - q, "sadd_complex": lambda q: q + (1 - 0.25j),
+    "ssub_real_int": lambda q: q - 2, "sadd_np": lambda q: q + np.complex128(-0.5j),
 }
 BINARY = {
     "add": lambda a, b: a + b, "sub": lambda a, b: a - b, "matmul": lambda a, b: a @ b, "mul": lambda a, b: a * b,
